@@ -43,6 +43,10 @@ func runCrashWorkload(c *CaseCtx, o crashOpts) {
 	cr.Power = o.Power
 	if o.ImgCap > 0 {
 		cr.MaxImg = o.ImgCap
+	} else if c.Tier == "quick" {
+		// quick tier: at most 1500 distinct images per workload are opened (a uniform sample beyond that; the count of
+		// dropped images is reported); the thorough tier opens every one
+		cr.MaxImg = 1500
 	}
 	cr.ContinueMax = tier(c.Tier, 10, 25)
 	cr.ImmediateMax, cr.Cfg, cr.U = tier(c.Tier, 6, 12), cfg, u
